@@ -68,8 +68,11 @@ ViewsFails(L, ev) ==
              ELSE DH!MetricMatrix(L)
       MS  == Sq(Sum1M(L))                    \* scale of entries of M
       tol2(a, b) == Approx(a, b, 2, 3, Sq(S))
-      dOK(v)  == Len(v) = np /\ AllFinV(v) /\ \A p \in 1..np : IsSqrt(v[p], D2[p], 2, 3, Sq(S))
-      d2OK(v) == Len(v) = np /\ AllFinV(v) /\ \A p \in 1..np : tol2(v[p], D2[p])
+      \* a distance is a function of the DIFFERENCE x - x' (exact for the dyadic query points): its rounding allowance is
+      \* relative to the scale of that difference, not to the magnitude of the points (a large common offset must not matter)
+      Sd2(p) == LET m == MaxAbsV(DM!VSub(X[P[p][1]], X[P[p][2]])) IN Sq(Mul(Sum1M(L), Add(m, m)))
+      dOK(v)  == Len(v) = np /\ AllFinV(v) /\ \A p \in 1..np : IsSqrt(v[p], D2[p], 2, 3, Sd2(p))
+      d2OK(v) == Len(v) = np /\ AllFinV(v) /\ \A p \in 1..np : Approx(v[p], D2[p], 2, 3, Sd2(p))
       T   == ev.transform
       Mg  == ev.M
   IN  F("C02.transform_is_XLt", Len(T) = n /\ AllFinM(T) /\
